@@ -13,6 +13,12 @@ pub struct SeqExact {
     pub kinds: &'static [TreeKind],
 }
 
+impl SeqExact {
+    fn is_prefetch(&self) -> bool {
+        self.id == "C09"
+    }
+}
+
 pub fn abbreviate_seq(c: &SeqCase) -> Value {
     let s = c.content.expand();
     let m = SeqModel::new(s.clone());
@@ -57,23 +63,39 @@ impl Prop for SeqExact {
         self.id
     }
     fn strategy(&self, tier: Tier, _build: &str) -> BoxedStrategy<SeqCase> {
-        let cfg = match tier {
+        let mut cfg = match tier {
             Tier::Quick => SeqGenCfg::quick(self.kinds),
             Tier::Thorough => SeqGenCfg::thorough(self.kinds),
         };
+        if self.is_prefetch() {
+            // several 2048-symbol sampling periods, >= 3 levels, lengths at the period boundaries
+            cfg.large_weight = 7;
+            cfg.min_large = 4_097;
+            cfg.period_bias = Some(2048);
+            cfg.min_max_symbol = Some(16);
+        }
         seq_case(cfg)
     }
     fn cases(&self, tier: Tier, build: &str) -> u32 {
         match (tier, build) {
+            (Tier::Quick, _) if self.is_prefetch() => 4_000,
+            (Tier::Thorough, _) if self.is_prefetch() => 80_000,
             (Tier::Quick, "fast") => 30_000,
             (Tier::Quick, _) => 15_000,
             (Tier::Thorough, "fast") => 600_000,
             (Tier::Thorough, _) => 300_000,
         }
     }
+    fn builds(&self, _tier: Tier) -> Vec<&'static str> {
+        if self.is_prefetch() { vec!["fast", "checked", "noprefetch"] } else { vec!["fast", "checked"] }
+    }
+    fn transcript_pairs(&self) -> Vec<(&'static str, &'static str)> {
+        if self.is_prefetch() { vec![("fast", "noprefetch")] } else { vec![] }
+    }
     fn rule(&self) -> &'static str {
         match self.id {
             "C01" => "cases = (alias, element type, construction path, sequence by shape generator, query plan seed); non-trivial = n >= 2, >= 2 distinct symbols and (>= 2 levels or n > 256); distinct = hash of the whole case",
+            "C09" => "cases = sequence cases for the 8 quad aliases, 70% with n in 4097..=70000 (thorough 600000), half of those with n = k*2048 + {-1,0,1}, alphabets with max >= 16 (>= 3 levels), Huffman profiles with unequal level lengths; every (symbol, position) pair of the plan is asked through rank and rank_prefetch, positions n-1, n, n+1 for every symbol; non-trivial = type with prefetch support, >= 3 levels, n > 4096; distinct = hash of the whole case",
             "C02" => "cases as C01 for the four HQWT aliases with a generated Huffman tie seed; non-trivial = n >= 8, >= 3 distinct symbols and >= 2 distinct code lengths predicted by an independent 4-ary Huffman computation; distinct = hash of the whole case",
             _ => "cases as C01 for WT and HWT; non-trivial = n >= 2, >= 2 distinct symbols and >= 2 levels (plain: bit length of max; Huffman: predicted depth); distinct = hash of the whole case",
         }
@@ -109,6 +131,12 @@ impl Prop for SeqExact {
         } else {
             let lv = m.max().map_or(0, |mx| plain_levels(c.kind, mx));
             ctx.nontrivial = n >= 2 && d >= 2 && (lv >= 2 || (c.kind.is_quad() && n > 256));
+        }
+        if self.is_prefetch() {
+            let levels = if c.kind.is_huffman() { huffman_shape(&m, c.kind).0 as usize } else { m.max().map_or(0, |mx| plain_levels(c.kind, mx)) };
+            ctx.nontrivial = c.kind.has_pfs() && levels >= 3 && n > 4096;
+            if c.kind.has_pfs() { ctx.label("with-prefetch-support"); }
+            if n > 0 && (n % 2048 <= 1 || n % 2048 == 2047) { ctx.label("n=k*2048+-1"); }
         }
         let o = SeqOpts { prefetch: true, unchecked: false, budget: if ctx.thorough { 60 } else { 40 }, full_get_upto: 3000 };
         check_tree(t.as_ref(), &m, c.plan_seed, o, ctx)?;
